@@ -22,7 +22,12 @@ def hFollow (j : Json) : Except String Json := do
                   ("spec_keyed_nomid", toJson (specFollow l nomid (followLinksKeyed Fix.f4 l nomid (4 * fuel))).ok),
                   ("spec_sep_nomid", toJson (specFollow l nomid (followLinksSeparately Fix.f4 l nomid fuel)).ok),
                   ("spec_nomid", toJson (specFollow l nomid (followLinks Fix.f4 l nomid fuel)).ok),
-                  ("midwild", toJson (paths.any middleWildcard))]
+                  ("midwild", toJson (paths.any middleWildcard)),
+                  ("metalink", toJson (metaLink l)),
+                  ("spec_lit", toJson ([(false, false), (true, false), (false, true)].any fun (k, s) =>
+                      (specFollow l paths (followLinksLit Fix.f4 l paths (4 * fuel) k s)).ok)),
+                  ("spec_lit_nomid", toJson ([(false, false), (true, false), (false, true)].any fun (k, s) =>
+                      (specFollow l nomid (followLinksLit Fix.f4 l nomid (4 * fuel) k s)).ok))]
   match j.getObjVal? "impl" with
   | .ok (.arr a) =>
     let r := a.toList.filterMap fun x => match x with | .str h => some (unhex h) | _ => none
